@@ -366,6 +366,10 @@ FIXED = {
                           lambda a, b, c, gx, gy, nn, m: S(a) + S(gy) + "[" + S(gx) + "]"),
     "with_lax_error": ("{% with x: a %}{{ x }}{{ x | nosuchfilter }}{{ x }}{% endwith %}[{{ x }}]{% with y: b %}{% include 'nosuchpartial' %}{% endwith %}[{{ y }}]",
                        lambda a, b, c, gx, gy, nn, m: S(a) + "[" + S(gx) + "][" + S(gy) + "]"),
+    "macro_redefined_in_loop": ("{% for i in (1..3) %}{% if i == 2 %}{% macro mm p: b, q: 'Q' %}<{{ p }}{{ q }}>{% endmacro %}{% else %}{% macro mm p: a, q: c %}<{{ p }}{{ q }}>{% endmacro %}{% endif %}{% call mm %}{% call mm q: i %}{% endfor %}",
+                                lambda a, b, c, gx, gy, nn, m: "<%s%s><%s1><%sQ><%s2><%s%s><%s3>" % (S(a), S(c), S(a), S(b), S(b), S(a), S(c), S(a))),
+    "macro_call_in_cached_partial": ("{% macro mm p: a %}<{{ p }}>{% endmacro %}{% include 'callmm' %}{% macro mm p: b %}[{{ p }}]{% endmacro %}{% include 'callmm' %}{% macro mm p %}({{ p }}){% endmacro %}{% include 'callmm' %}",
+                                     lambda a, b, c, gx, gy, nn, m: "<%s>[%s]()" % (S(a), S(b))),
     "with_siblings": ("{% with x: a %}{{ x }}{% endwith %}/{% with y: b %}{{ x }}{{ y }}{% endwith %}/{{ x }}{{ y }}",
                       lambda a, b, c, gx, gy, nn, m: S(a) + "/" + S(gx) + S(b) + "/" + S(gx) + S(gy)),
     "with_path_value": ("{% with p: o.v, x: o.w %}{{ p }}[{{ x }}]{% endwith %}[{{ p }}]{{ x }}",
@@ -401,7 +405,10 @@ FIXED = {
                             lambda a, b, c, gx, gy, nn, m: "- " + S(a) + " - 43 - " + S(b) + " - u => " + S(c) + " - v => " + S(nn) + " "),
 }
 ENV_LAX = Environment(extra=True, tolerance=Mode.LAX, loader=DictLoader({}))
-T_FIXED = {k: (ENV_LAX if k.endswith("_lax_error") else ENV).from_string(v[0]) for k, v in FIXED.items()}
+from liquid import CachingDictLoader  # noqa: E402
+ENV_PART = Environment(extra=True, loader=CachingDictLoader({"callmm": "{% call mm %}"}, auto_reload=False))
+ENV_PART.get_template("callmm")
+T_FIXED = {k: (ENV_LAX if k.endswith("_lax_error") else ENV_PART if k.endswith("_cached_partial") else ENV).from_string(v[0]) for k, v in FIXED.items()}
 
 
 def fixed_case(key, asy, a, b, c, gx, gy, nn, m):
@@ -416,6 +423,7 @@ GROUPS = {
     "with_left_early": ("with_break_no_leak", "with_continue_every", "with_break_nested", "with_lax_error"),
     "with_and_macro": ("with_around_call", "with_in_macro", "macro_own_scope", "macro_no_leak"),
     "macro_defaults": ("macro_two_calls", "macro_late_default", "macro_literal_defaults", "macro_nil_argument"),
+    "macro_redefined": ("macro_redefined_in_loop", "macro_call_in_cached_partial"),
     "macro_forms": ("macro_in_for", "macro_quoted_name", "macro_docs_variadic", "macro_caller_scope", "macro_commas"),
 }
 
